@@ -101,6 +101,9 @@ type plannedOp struct {
 	// the call is made with a deadline (cmd/syncer.go bounds election calls by leaseRenewInterval) and
 	// the store answers it late: the reply arrives after the deadline
 	LateReply bool `json:"reply_after_deadline,omitempty"`
+	// the call has NO deadline and the store answers it after 3.4 s (longer than any fixed I/O
+	// time-out a connection might apply on its own): the answer must still be this call's
+	VerySlow bool `json:"reply_after_3400ms_no_deadline,omitempty"`
 	kind      opKind
 	fault     leasestore.Fault
 }
@@ -118,6 +121,8 @@ type plan struct {
 	TTLSec  int        `json:"ttl_s"`
 	Key     string     `json:"key"`
 	CrashAt []int      `json:"crash_at_step"` // per contender: step index from which it is silent (-1 never)
+	// one call of this history is answered after 3.4 s of real time (see plannedOp.VerySlow)
+	VerySlow bool `json:"very_slow_reply_history,omitempty"`
 	Steps   []planStep `json:"steps"`
 }
 
@@ -247,7 +252,33 @@ func makePlan(r *harness.Run, idx int) *plan {
 	}
 	// reply later than the caller's deadline, and the instance's next call re-uses the same election (own PRNG stream)
 	lrng := r.Rand(fmt.Sprintf("late-reply-%d", idx))
+	if idx%900 == 7 {
+		// a handful of histories (3 in quick) carry one very slow reply instead of the late ones
+		p.VerySlow = true
+	pick:
+		for si := 1; si < len(p.Steps); si++ {
+			for oi := range p.Steps[si].Ops {
+				o := &p.Steps[si].Ops[oi]
+				if o.fault != leasestore.FaultNone || o.StallNth > 0 || (o.kind != kRenew && o.kind != kCampaign) {
+					continue
+				}
+				o.VerySlow = true
+				o.fault, o.Fault = leasestore.FaultSlowReply, leasestore.FaultSlowReply.String()
+				for sj := si + 1; sj < len(p.Steps); sj++ { // the instance stays on the same lease client afterwards
+					for oj := range p.Steps[sj].Ops {
+						if p.Steps[sj].Ops[oj].C == o.C {
+							p.Steps[sj].Ops[oj].Stale = true
+						}
+					}
+				}
+				break pick
+			}
+		}
+	}
 	for si := range p.Steps {
+		if p.VerySlow {
+			break
+		}
 		for oi := range p.Steps[si].Ops {
 			o := &p.Steps[si].Ops[oi]
 			if o.fault != leasestore.FaultNone || o.StallNth > 0 || lrng.Intn(100) >= 4 {
@@ -469,6 +500,10 @@ func (h *history) run() {
 		// with a 1 s lease a reply later than a third of the lease period is later than any
 		// deadline the client could derive from the lease timing options (ttl/3 = 333 ms)
 		st.SetSlowReply(420 * time.Millisecond)
+	}
+	if h.p.VerySlow {
+		st.SetSlowReply(3400 * time.Millisecond)
+		h.r.Count("histories_with_a_very_slow_reply", 1)
 	}
 	for i := 0; i < h.p.N; i++ {
 		c := &contender{idx: i, id: fmt.Sprintf("10.0.%d.%d:18001", i/200, 10+i), lastIssue: -1}
